@@ -18,6 +18,19 @@ PROPS = {
    'assumptions': ['amounts stay below the 256-bit limit of math.Int (the overflow panic is not modelled)',
                    'request amounts are non-negative (they are decoded from unsigned EVM words)'],
  },
+ 'C12': {
+   'runs': locking('C12'),
+   'monitor_props': ['C12'],
+   'rule': LOCKING_RULE,
+   'assumptions': ['grants and voting powers are non-negative (unsigned on the wire); InitialBlockReward >= 0 (Params.Validate)'],
+ },
+ 'C14': {
+   'runs': locking('C14', blocks=18),
+   'monitor_props': ['C14'],
+   'rule': LOCKING_RULE + '; signing windows 3..8 with max-missed 1..window-1, evidence ages straddling both limits',
+   'partial': 'permanence of zero power / non-membership for tombstoned validators is covered by C13 invariants (see DESIGN.md)',
+   'assumptions': ['slash fractions lie in (0,1) (Params.Validate)'],
+ },
  'C04': {
    'runs': runs([{'family': 'merkle', 'n': 3000, 'shards': 16}],
                 [{'family': 'merkle', 'n': 60000, 'shards': 64}]),
